@@ -141,6 +141,7 @@ type Engine struct {
 	crashPoints  int
 	hookCheck    bool
 	netUp        bool
+	rwOwner      map[*value]*value // RWMutex field cell -> struct that holds it
 	pools        map[*value][]value // sync.Pool contents per pool (objects Put and not yet handed out again)
 	netStallNew  bool // new connections start out stalled (peer accepts, never reads)
 	netConns     []*netConn
@@ -204,6 +205,7 @@ func (e *Engine) resetPath() {
 	e.netUp = false
 	e.netStallNew = false
 	e.pools = nil
+	e.rwOwner = nil
 	e.netConns = nil
 	e.netByPtr = nil
 	e.httpSt = nil
